@@ -26,7 +26,7 @@ Mk(proto, over, hops, sbad, rc, cut, ex, sig, text) ==
               ELSE CASE proto = "smtp" -> <<(IF cc = "K" THEN "2" ELSE IF hops \/ over THEN "5" ELSE IF cc = "D" THEN "5" ELSE "4")>>
                      [] proto = "qmtp" -> [i \in 1..n |-> IF rc[i] # "ok" THEN "D" ELSE IF sbad THEN "D" ELSE IF over THEN "D" ELSE cc]
                      [] OTHER          -> <<(IF flagerr THEN "D" ELSE cc)>>
-  IN [proto |-> proto, over |-> over, hops |-> hops, sbad |-> sbad, rc |-> rc, cut |-> cut, incomplete |-> FALSE, qinv |-> TRUE, qcomplete |-> complete, qexit |-> ex, qsig |-> sig,
+  IN [proto |-> proto, over |-> over, hops |-> hops, sbad |-> sbad, rc |-> rc, cut |-> cut, incomplete |-> FALSE, trouble |-> FALSE, qinv |-> TRUE, qcomplete |-> complete, qexit |-> ex, qsig |-> sig,
       qtext |-> text, pf |-> [known |-> FALSE], acks |-> acks, body |-> B, got |-> B, recv |-> Recv, xs |-> <<115>>, gs |-> <<115>>, xr |-> xr, gr |-> gr]
 Init == \E proto \in {"smtp", "qmtp", "qmqp"}, over \in BOOLEAN, hops \in BOOLEAN, sbad \in BOOLEAN, cut \in BOOLEAN, ex \in Codes, sig \in BOOLEAN, text \in Texts :
           \E rc \in UNION {[1..k -> RcKinds] : k \in 1..2} :
